@@ -8,6 +8,7 @@ import FalconProofs.C15.AppendView
 import FalconProofs.C15.MergeTotal
 import FalconProofs.C15.NoPanic
 import FalconProofs.C15.CopyTotal
+import FalconProofs.C15.Blockify
 
 namespace Falcon.C15
 open Falcon Falcon.CfgEdit
@@ -27,6 +28,16 @@ theorem step_wf (s : Graphs) (hs : ∀ g, WF (s g)) (o : EditOp) : WF (o.step s)
   | bappend g b h j => exact wf_blockAppendOp (hs g) b (s h) j
   | rmins g b i => exact wf_removeInstruction (hs g) b i
   | temp g n => exact wf_temp (hs g) n
+  | blockify g hs' =>
+    show WF (match CfgEdit.blockify (hs'.map s) with
+      | .ok c => (⟨c, .ok .unit⟩ : Step Outcome)
+      | .err e => ⟨s g, .err e⟩
+      | .panic => ⟨s g, .panic⟩).cfg
+    cases hb : CfgEdit.blockify (hs'.map s) with
+    | ok c =>
+      exact blockify_wf' (by intro d hd; obtain ⟨i, _, rfl⟩ := List.mem_map.mp hd; exact hs i) hb
+    | err e => exact hs g
+    | panic => exact hs g
 
 theorem run_wf (s : Graphs) (hs : ∀ g, WF (s g)) (o : EditOp) : ∀ g, WF ((run s o).1 g) := by
   intro g
@@ -123,35 +134,8 @@ theorem merge_selects_valid_pairs {c : Cfg} {ms : List (Nat × Nat)} (h : collec
     entry→exit run of `d` (the unconditional transition edge spells nothing); appended to the empty graph, the
     runs are those of `d`. -/
 theorem append_paths {c d c' : Cfg} (hw : WF c) (hd : WF d) (h : CfgEdit.append c d = ⟨c', .ok ()⟩) (w : List Sym) :
-    LangEE c' w ↔ if c.blocks = [] then LangEE d w else ∃ u v, w = u ++ v ∧ LangEE c u ∧ LangEE d v := by
-  obtain ⟨f, den, dex, A⟩ := append_view hw hd h
-  have G := A.glue
-  by_cases hemp : c.blocks = []
-  · simp only [hemp, if_true]
-    obtain ⟨hen, _⟩ := A.empty hemp
-    constructor
-    · rintro ⟨en, ex, h1, h2, hwalk⟩
-      rw [hen] at h1; rw [A.exit] at h2
-      cases h1; cases h2
-      exact ⟨den, dex, A.dentry, A.dexit, (langEE_copy G A.dentry A.dexit w).mp hwalk⟩
-    · rintro ⟨en, ex, h1, h2, hwalk⟩
-      rw [A.dentry] at h1; rw [A.dexit] at h2
-      cases h1; cases h2
-      exact ⟨_, _, hen, A.exit, (langEE_copy G A.dentry A.dexit w).mpr hwalk⟩
-  · simp only [hemp, if_false]
-    obtain ⟨cen, cex, hcen, hcex, hen', T⟩ := A.nonempty hemp
-    obtain ⟨bx, hbx, hbxi⟩ := (hasBlock_iff d _).mp (hd.exitOk dex A.dexit)
-    constructor
-    · rintro ⟨en, ex, h1, h2, hwalk⟩
-      rw [hen'] at h1; rw [A.exit] at h2
-      cases h1; cases h2
-      obtain ⟨u, v, rfl, hu, hv⟩ := walk_split G T hwalk (old_index_lt hw (hw.entryOk _ hcen))
-        (by rw [← hbxi]; exact G.fresh bx hbx)
-      exact ⟨u, v, rfl, ⟨cen, cex, hcen, hcex, hu⟩, ⟨den, dex, A.dentry, A.dexit, (langEE_copy G A.dentry A.dexit v).mp hv⟩⟩
-    · rintro ⟨u, v, rfl, ⟨en1, ex1, h1, h2, hu⟩, ⟨en2, ex2, h3, h4, hv⟩⟩
-      rw [hcen] at h1; rw [hcex] at h2; rw [A.dentry] at h3; rw [A.dexit] at h4
-      cases h1; cases h2; cases h3; cases h4
-      exact ⟨cen, _, hen', A.exit, walk_join G T hu (walk_copy G hv)⟩
+    LangEE c' w ↔ if c.blocks = [] then LangEE d w else ∃ u v, w = u ++ v ∧ LangEE c u ∧ LangEE d v :=
+  append_langEE hw hd h w
 
 /-- appending to the empty graph is the identity up to the renumbering `f` of block indices -/
 theorem append_empty_iso {c d c' : Cfg} (hw : WF c) (hd : WF d) (h : CfgEdit.append c d = ⟨c', .ok ()⟩)
@@ -216,6 +200,32 @@ theorem insert_ok {c d : Cfg} (hw : WF c) (hd : WF d) (hen : d.entry.isSome = tr
   obtain ⟨dex, hdex⟩ := Option.isSome_iff_exists.mp hex
   exact insert_total hw hd hden hdex
 
+/-- **blockify_wf_paths** — `BlockTranslationResult::blockify` of well-formed instruction graphs: the result is
+    well formed (in particular its `exit` names an existing block — false before the repair for every block of more
+    than one instruction); the graph `c0` it builds by appending runs the instruction graphs one after the other
+    (`ConcatLang`), and the final `merge` does not change what can be executed from the entry. -/
+theorem blockify_wf_paths {ds : List Cfg} {c : Cfg} (hds : ∀ d ∈ ds, WF d) (h : blockify ds = .ok c) :
+    WF c ∧ ∃ c0, (∀ w, LangEE c0 w ↔ ConcatLang ds w) ∧ (∀ w, Lang c w ↔ Lang c0 w) := by
+  refine ⟨blockify_wf' hds h, ?_⟩
+  obtain ⟨c0, happ, _, rfl⟩ := blockify_ok_iff h
+  have hw0 : WF c0 := by
+    have := blockifyAppends_wf ds blockifyInit_wf hds
+    rw [happ] at this; exact this
+  refine ⟨c0, ?_, (merge_preserves_paths hw0).2⟩
+  intro w
+  rw [blockifyAppends_paths ds blockifyInit_wf hds (by simp [blockifyInit]) happ w]
+  constructor
+  · rintro ⟨u, v, rfl, hu, hv⟩
+    rw [(langEE_blockifyInit u).mp hu]; simpa using hv
+  · intro hv
+    exact ⟨[], w, by simp, (langEE_blockifyInit []).mpr rfl, hv⟩
+
+/-- **blockify_ok** — `blockify` succeeds whenever every instruction graph is well formed and has entry and exit
+    (before the repair it failed with "duplicate edge" when an instruction graph contained an unconditional
+    self-loop off its entry). -/
+theorem blockify_ok {ds : List Cfg} (hds : ∀ d ∈ ds, WF d ∧ d.entry.isSome = true ∧ d.exit.isSome = true) :
+    ∃ c, blockify ds = .ok c := blockify_total hds
+
 /-- **history_no_panic** — in every history that starts from `ControlFlowGraph::new()` no call panics
     (`block_map[&…]` in `append`/`insert`, `edges_in(successor).unwrap()` in `merge` always succeed, because the
     graphs they read are well formed by `ops_wf`); so the convention "a panicking call leaves the graphs
@@ -247,5 +257,6 @@ example : (mergeStep exG 0 1).res = .ok () ∧ (mergeStep exG 0 1).cfg.blocks.le
 example : (CfgEdit.append exG exG).res = .ok () ∧ exG.blocks ≠ [] := by decide
 example : (CfgEdit.append CfgEdit.new exG).res = .ok () := by decide
 example : ∃ p, (CfgEdit.insert exG exG).res = .ok p := ⟨(2, 3), by decide⟩
+example : ∃ c, blockify [exG, exG] = .ok c ∧ c.blocks.length = 1 ∧ c.exit = some 0 := ⟨_, rfl, by decide, by decide⟩
 
 end Falcon.C15
